@@ -479,7 +479,11 @@ func runPromise(t *testing.T, c *Case, o RunOpts) *Result {
 						call := sim.Invoke(op.Op)
 						switch op.Op {
 						case "fulfill":
-							out.ok = p.Fulfill(op.Arg) == nil
+							if op.Arg == 0 {
+								out.ok = p.Fulfill(nil) == nil // a nil value is a value
+							} else {
+								out.ok = p.Fulfill(op.Arg) == nil
+							}
 						case "fail":
 							out.ok = p.Fail(nil, promErr{op.Arg})
 						case "wait":
@@ -548,7 +552,11 @@ func genPromise(r *simrt.RNG) *Case {
 			arg++
 			switch x := r.Intn(10); {
 			case x < 4:
-				ops = append(ops, PromOp{"fulfill", arg})
+				v := arg
+				if r.Intn(6) == 0 {
+					v = 0 // Fulfill(nil)
+				}
+				ops = append(ops, PromOp{"fulfill", v})
 				setter = true
 			case x < 6:
 				ops = append(ops, PromOp{"fail", arg})
